@@ -1195,6 +1195,12 @@ class RZILTransformer(Transformer):
             case _:
                 raise NotImplementedError(f"Can not simplify '{operation}' expression.")
         a_type, b_type = c11_cast(a.value_type, b.value_type)
+        # The result has the common type of the operands. Reduce it to the range of this type
+        # (C11 6.2.5p9 for unsigned types, two's complement wrap around for signed ones).
+        # Otherwise a fold which uses this constant computes with a value its type can't hold.
+        result &= (1 << a_type.bit_width) - 1
+        if a_type.signed and result >> (a_type.bit_width - 1):
+            result -= 1 << a_type.bit_width
 
         name = f'const_{"neg" if items[0] == "-" else "pos"}{items[1]}{items[2] if items[2] else ""}'
         return Number(name, result, a_type)
